@@ -374,5 +374,6 @@ pub fn c10(g: &mut Gen) {
     let depth = if g.thorough { 4 } else { 3 };
     for seq in call_sequences(&de_alphabet(6), depth) { lines.push(format!("iv V it {}", seq.join(" "))); }
     lines.push("iv V into_iter".to_string());
+    for seq in call_sequences(&fwd_alphabet(6), depth) { lines.push(format!("iv V into_it {}", seq.join(" "))); }
     g.group(lines);
 }
